@@ -167,6 +167,7 @@ def check(blk, desc, want, comp_, key, klass=None):
             bc = BeaconConfig(blk)
             prof = C2Profile.from_beacon_config(bc)
             txt = prof.as_text()
+            txt_again = C2Profile.from_beacon_config(bc).as_text()       # the same configuration object, a second time
             d = C2Profile.from_text(txt).as_dict()
         uris = [p for i, p in enumerate(desc["domains"].split(",")) if i % 2 == 1]
         uris = list(dict.fromkeys(uris))
@@ -177,6 +178,8 @@ def check(blk, desc, want, comp_, key, klass=None):
                "http-post.client.id": want_block(desc["post"], "id"), "http-post.client.output": want_block(desc["post"], "output"),
                "http-get.server.output": [(k if v is True else (k, b"X" * len(v))) for k, v in desc["server"]]}
         problems = []
+        if txt_again != txt:
+            problems.append({"key": "second generation from the same configuration object", "problem": "text differs from the first generation"})
         for k, v in exp.items():
             got = d.get(k)
             got = [dec(x) for x in got] if got is not None and k.count(".") < 2 or k in ("http-get.uri", "http-post.uri") else got
